@@ -14,6 +14,10 @@ VF.GHOST_SCHEMA.update({
 })
 
 
+# only the file-system externals (and contracts that name them in ghost_frame) change these
+VF.GHOST_LOCAL.update({"pinfile", "pinfile_exists", "fs_writes"})
+
+
 @LM.register_external("builtins.open")
 def _open(ip, st, args, kwargs):
     path = args[0]
